@@ -462,37 +462,55 @@ class _InternalBaseTracer(_InternalBaseTracerSuper, metaclass=MetaTracerStateMac
             sys_settrace(orig_sys_tracer)
         return existing_ret
 
-    def _make_composed_tracer(self, existing_tracer):  # pragma: no cover
+    def _make_composed_tracer(
+        self, existing_tracer, per_frame: bool = False
+    ):  # pragma: no cover
+        # per_frame: the function is handed to the interpreter as ONE frame's local trace function
         @functools.wraps(self._sys_tracer)
         def _composed_tracer(frame: FrameType, evt: str, arg: Any, **kwargs):
+            nonlocal existing_tracer
             __debuggerskip__ = True  # noqa: F841
             if self._is_tracing_enabled:
                 my_ret = self._sys_tracer(frame, evt, arg, **kwargs)
             else:
                 my_ret = None
-            if isinstance(my_ret, tuple) and len(my_ret) > 1 and my_ret[0] is SkipAll:
-                return my_ret[1]
-            existing_ret = self._call_existing_tracer(
-                existing_tracer, frame, evt, arg, **kwargs
-            )
-            if evt == "call":
-                if my_ret is not None and existing_ret is not None:
-                    return self._make_composed_tracer(existing_ret)
-                elif my_ret is None:
-                    # this frame is not ours, but stay between the interpreter and the existing
-                    # tracer's local function: user code may still uninstall it with sys.settrace(None)
-                    if existing_ret is None:
-                        return None
-                    return self._make_composed_tracer(existing_ret)
-                elif my_ret is self.sys_tracer and existing_tracer is not None:
-                    # the existing tracer declined this frame: trace it for our handlers only
-                    return self._make_composed_tracer(None)
-            elif my_ret is self.sys_tracer or not callable(my_ret):
-                # keep the frame's current local trace function (which already composes with the
-                # existing tracer's local function, if any); in particular never hand the interpreter
-                # a non-callable such as the (type, value, traceback) argument of an 'exception' event
+            skip_existing = False
+            if type(my_ret) is tuple and len(my_ret) > 1 and my_ret[0] is SkipAll:
+                my_ret = my_ret[1]
+                skip_existing = True
+            if skip_existing:
+                existing_ret = None
+            else:
+                existing_ret = self._call_existing_tracer(
+                    existing_tracer, frame, evt, arg, **kwargs
+                )
+            if evt != "call":
+                # Keep the frame's current local trace function (which already composes with the existing
+                # tracer's local function, if any).  The value the handlers were given - the function's
+                # return value, the (type, value, traceback) of an exception - never goes back to the
+                # interpreter: it would install a callable one as the frame's trace function.
+                if (
+                    per_frame
+                    and callable(existing_ret)
+                    and existing_ret is not existing_tracer
+                ):
+                    # the existing tracer's local function handed over to another local function
+                    existing_tracer = existing_ret
                 return None
-            return my_ret
+            if skip_existing:
+                return my_ret if callable(my_ret) else None
+            if my_ret is not None and existing_ret is not None:
+                return self._make_composed_tracer(existing_ret, per_frame=True)
+            elif my_ret is None:
+                # this frame is not ours, but stay between the interpreter and the existing
+                # tracer's local function: user code may still uninstall it with sys.settrace(None)
+                if existing_ret is None:
+                    return None
+                return self._make_composed_tracer(existing_ret, per_frame=True)
+            elif my_ret is self.sys_tracer and existing_tracer is not None:
+                # the existing tracer declined this frame: trace it for our handlers only
+                return self._make_composed_tracer(None, per_frame=True)
+            return my_ret if callable(my_ret) else None
 
         return _composed_tracer
 
@@ -534,7 +552,6 @@ class _InternalBaseTracer(_InternalBaseTracerSuper, metaclass=MetaTracerStateMac
         original_sys_gettrace = sys.gettrace
         original_sys_settrace = sys.settrace
         orig_thread = threading.current_thread()
-        existing_tracer = self.existing_tracer
 
         def cleanup_callback():
             sys.gettrace = original_sys_gettrace
@@ -556,7 +573,10 @@ class _InternalBaseTracer(_InternalBaseTracerSuper, metaclass=MetaTracerStateMac
                 original_sys_settrace(trace_func)
 
         def patched_sys_gettrace():
-            return existing_tracer
+            if threading.current_thread() is not orig_thread:
+                return sys_gettrace()
+            # what user code would see without us: the function it (or somebody before us) installed last
+            return self.existing_tracer
 
         sys.gettrace = patched_sys_gettrace
         sys.settrace = patched_sys_settrace
